@@ -355,3 +355,55 @@ func Try(f func() error) (err error) {
 	}()
 	return f()
 }
+
+// EndBlock ends the current block (EndBlocker + clearing the transient stores, which is what Commit does).
+func EndBlock(a *app.OsmosisApp, ctx sdk.Context) (sdk.Context, sdk.EndBlock, error) {
+	ctx = ctx.WithEventManager(sdk.NewEventManager())
+	eb, err := a.EndBlocker(ctx)
+	if err != nil {
+		return ctx, eb, err
+	}
+	ClearTransient(a, ctx)
+	return ctx, eb, nil
+}
+
+// BeginBlock starts the next block dt later on the same store branch.
+func BeginBlock(a *app.OsmosisApp, ctx sdk.Context, dt time.Duration) (sdk.Context, sdk.BeginBlock, error) {
+	h := ctx.BlockHeader()
+	h.Height++
+	h.Time = h.Time.Add(dt)
+	ctx = ctx.WithBlockHeader(h).WithEventManager(sdk.NewEventManager())
+	bb, err := a.BeginBlocker(ctx)
+	return ctx, bb, err
+}
+
+// ImportNode builds a fresh application from an exported genesis (module name -> raw JSON), as a
+// node restarted from `osmosisd export` would: InitChain at the block time of the export with
+// initial height = exported height + 1. The returned context is positioned at the exported height
+// (the next BeginBlock moves to height+1), like the exporting node's.
+func ImportNode(gs map[string]json.RawMessage, height int64, t time.Time) (*Env, error) {
+	a, dir := NewBlankApp()
+	bz, err := json.Marshal(gs)
+	if err != nil {
+		return nil, err
+	}
+	var ierr error
+	func() {
+		defer func() {
+			if r := recover(); r != nil {
+				ierr = fmt.Errorf("panic in InitChain: %v", r)
+			}
+		}()
+		_, ierr = a.InitChain(&abci.RequestInitChain{
+			Validators: []abci.ValidatorUpdate{}, ConsensusParams: sims.DefaultConsensusParams,
+			AppStateBytes: bz, ChainId: ChainID, Time: t, InitialHeight: height,
+		})
+	}()
+	if ierr != nil {
+		os.RemoveAll(dir)
+		return nil, ierr
+	}
+	ctx := a.BaseApp.NewContextLegacy(false, cmtproto.Header{Height: height, ChainID: ChainID, Time: t})
+	ctx = ctx.WithGasMeter(storetypes.NewInfiniteGasMeter()).WithBlockGasMeter(storetypes.NewInfiniteGasMeter())
+	return &Env{App: a, Ctx: ctx, home: dir}, nil
+}
